@@ -143,7 +143,7 @@ func main() {
 	aeadIDs := []hpke.AEAD{hpke.AEAD_ChaCha20Poly1305, hpke.AEAD_AES128GCM, hpke.AEAD_AES256GCM}[:*aeads]
 	kem := hpke.KEM_X25519_HKDF_SHA256
 	pkR, skR := kem.Scheme().DeriveKeyPair(vlib.Bytes(rng, kem.Scheme().SeedSize()))
-	pts := [][]byte{[]byte("plaintext-zero"), []byte("plaintext-one-longer-than-a-block-of-sixteen")}
+	pts := [][]byte{{}, []byte("plaintext-one-longer-than-a-block-of-sixteen")} // the EMPTY plaintext (an aad-only message) is a message like any other
 	aads := [][]byte{nil, []byte("aad-one")}
 	tr := 0
 	for ai, aid := range aeadIDs {
